@@ -19,6 +19,58 @@ pub struct Case {
     pub n: usize,
     /// also read with 1-byte reads / BufRead / 8191-byte reads and with the raw session key
     pub extra_pulls: bool,
+    /// read SEIPDv1 with `Seipdv1ReadMode::Streaming` (through `decrypt_the_ring`)
+    #[serde(default)]
+    pub v1_streaming: bool,
+}
+
+/// `to_file` / `to_armored_file` sequences onto one path.
+#[derive(Clone, Debug, Hash, Serialize, Deserialize)]
+pub struct FileCase {
+    pub cfg: MsgCfg,
+    /// payload lengths written one after the other onto the same path
+    pub lens: Vec<usize>,
+}
+
+fn run_file(c: &FileCase) -> Outcome {
+    let dir = std::env::temp_dir().join(format!("rpgp-mc-c01-{}-{:?}", std::process::id(), std::thread::current().id()));
+    if std::fs::create_dir_all(&dir).is_err() {
+        return Outcome::trivial("no scratch directory");
+    }
+    let path = dir.join("out.pgp");
+    let _ = std::fs::remove_file(&path);
+    let mut o = Outcome::ok("file-equals-writer-output");
+    for (step, &n) in c.lens.iter().enumerate() {
+        let payload = msg::payload(n, c.cfg.text);
+        let seed = 42 + n as u64;
+        let what = format!("{} to_file sequence {:?}, step {step} (n={n})", cfg_sig(&c.cfg), c.lens);
+        o.evals += 1;
+        if let Err(e) = msg::build_file(&c.cfg, &payload, &path, seed) {
+            o.push("C01:file-sink:build-error", format!("{what}: {e}"));
+            break;
+        }
+        let on_disk = std::fs::read(&path).unwrap_or_default();
+        // the same builder, same rng stream, into a writer
+        match msg::build_vec(&c.cfg, &payload, seed) {
+            Ok(want) => {
+                if on_disk != want {
+                    o.push(
+                        "C01:file-sink:file-differs-from-writer-output",
+                        format!("{what}: file holds {} octets, to_writer produces {}{}", on_disk.len(), want.len(), if on_disk.starts_with(&want) { " (the file continues with older content)" } else { "" }),
+                    );
+                }
+            }
+            Err(e) => o.push("C01:build-error", format!("{what}: {e}")),
+        }
+        match msg::read_back(&c.cfg, &on_disk, seed, Pull::ToEnd, false) {
+            Ok(rb) if rb.data == payload => {}
+            Ok(rb) => o.push("C01:file-sink:payload-differs", format!("{what}: read {} octets", rb.data.len())),
+            Err(e) => o.push("C01:file-sink:reader-rejects", format!("{what}: {e}")),
+        }
+    }
+    let _ = std::fs::remove_file(&path);
+    let _ = std::fs::remove_dir(&dir);
+    o
 }
 
 fn cfg_sig(cfg: &MsgCfg) -> String {
@@ -65,7 +117,7 @@ pub fn run(c: &Case) -> Outcome {
             continue;
         }
         o.evals += 1;
-        match msg::read_back(cfg, &bytes, seed, how, use_sk) {
+        match msg::read_back_mode(cfg, &bytes, seed, how, use_sk, c.v1_streaming) {
             Ok(rb) => {
                 if rb.data != payload {
                     let at = rb
@@ -216,6 +268,7 @@ pub fn check(ctx: &Ctx) {
                 cfg: cfg.clone(),
                 n,
                 extra_pulls: n % 64 == 0 || n < 4,
+                v1_streaming: false,
             })
         }),
         run,
@@ -259,6 +312,7 @@ pub fn check(ctx: &Ctx) {
                         cfg: cfg.clone(),
                         n,
                         extra_pulls: false,
+                        v1_streaming: false,
                     });
                 }
             }
@@ -292,6 +346,7 @@ pub fn check(ctx: &Ctx) {
                 cfg: base(Enc::V1(sym)),
                 n,
                 extra_pulls: true,
+                v1_streaming: false,
             });
         }
     }
@@ -313,6 +368,7 @@ pub fn check(ctx: &Ctx) {
                         cfg: base(Enc::V2(sym, aead, chunk)),
                         n,
                         extra_pulls: chunk <= 6,
+                        v1_streaming: false,
                     });
                 }
             }
@@ -334,6 +390,7 @@ pub fn check(ctx: &Ctx) {
                                 cfg: cfg.clone(),
                                 n: n as usize,
                                 extra_pulls: false,
+                                v1_streaming: false,
                             });
                         }
                     }
@@ -365,6 +422,7 @@ pub fn check(ctx: &Ctx) {
                             cfg,
                             n,
                             extra_pulls: n == 100,
+                            v1_streaming: false,
                         });
                     }
                 }
@@ -383,6 +441,7 @@ pub fn check(ctx: &Ctx) {
             cfg,
             n,
             extra_pulls: true,
+            v1_streaming: false,
         });
     }
     // ESK sets
@@ -409,6 +468,7 @@ pub fn check(ctx: &Ctx) {
                         cfg,
                         n,
                         extra_pulls: false,
+                        v1_streaming: false,
                     });
                 }
             }
@@ -420,6 +480,7 @@ pub fn check(ctx: &Ctx) {
                         cfg,
                         n,
                         extra_pulls: false,
+                        v1_streaming: false,
                     });
                 }
             }
@@ -438,6 +499,7 @@ pub fn check(ctx: &Ctx) {
                         cfg: cfg.clone(),
                         n,
                         extra_pulls: false,
+                        v1_streaming: false,
                     });
                     cfg.armor = false;
                     cfg.signers = vec![(KeyKind::Ed25519V4, 0)];
@@ -445,6 +507,7 @@ pub fn check(ctx: &Ctx) {
                         cfg,
                         n,
                         extra_pulls: false,
+                        v1_streaming: false,
                     });
                 }
             }
@@ -457,13 +520,92 @@ pub fn check(ctx: &Ctx) {
         sweep.into_par_iter(),
         run,
     );
+    // (d) SEIPDv1 read in streaming mode: every length, and every length around the points where
+    // the decrypted stream ends exactly with a refill of the decryptor's 8 KiB buffer
+    let mut sc = Vec::new();
+    let mut slens: Vec<usize> = (0..=if quick { 600usize } else { 2500 }).collect();
+    for k in 1..=if quick { 2usize } else { 4 } {
+        // buffer 8192 minus 22 octets held back; minus literal header (8..11) and packet framing
+        let c = 8170 * k;
+        slens.extend(c.saturating_sub(if quick { 40 } else { 120 })..=c + 30);
+    }
+    for sym in if quick { vec![7u8, 3] } else { vec![7u8, 3, 9, 2, 10] } {
+        for (compression, signers, esk_pw) in [(0u8, 0usize, true), (0, 1, false), (2, 0, true)] {
+            for &n in &slens {
+                if compression != 0 && n % 7 != 0 {
+                    continue;
+                }
+                let enc = Enc::V1(sym);
+                sc.push(Case {
+                    cfg: MsgCfg {
+                        source: 0,
+                        compression,
+                        enc,
+                        esks: if esk_pw { default_esk(enc) } else { vec![EskSpec::Key(KeyKind::Ed25519V4, false)] },
+                        signers: [(KeyKind::Ed25519V4, 0u8)][..signers].to_vec(),
+                        text: false,
+                        armor: false,
+                        checksum: true,
+                        partial_exp: 9,
+                    },
+                    n,
+                    extra_pulls: n % 64 == 0,
+                    v1_streaming: true,
+                });
+            }
+        }
+    }
+    ctx.run_space(
+        "seipdv1_streaming_reader",
+        true,
+        "SEIPDv1 messages read with Seipdv1ReadMode::Streaming through decrypt_the_ring (password, recipient key, raw session key): ciphers {AES-128, CAST5 (thorough + AES-256, 3DES, Twofish)} x {plain, 1 signer + PKESK, zlib} x every payload length 0..600 (2500) and every length within -40..+30 (-120..+30) of k*8170 (the decrypted stream ending exactly with a refill of the 8 KiB buffer), k = 1..2 (4)",
+        sc.into_par_iter(),
+        run,
+    );
+
+    // (e) the file sinks: sequences of writes onto one path
+    let mut fc = Vec::new();
+    for enc in [Enc::None, Enc::V1(7), Enc::V2(7, 2, 0)] {
+        for armor in [false, true] {
+            for signers in [0usize, 1] {
+                let cfg = MsgCfg {
+                    source: 0,
+                    compression: 0,
+                    enc,
+                    esks: default_esk(enc),
+                    signers: [(KeyKind::Ed25519V4, 0u8)][..signers].to_vec(),
+                    text: false,
+                    armor,
+                    checksum: true,
+                    partial_exp: 9,
+                };
+                let pool: &[usize] = if quick { &[0, 1, 600, 5000] } else { &[0, 1, 100, 600, 4999, 5000, 9000] };
+                for &a in pool {
+                    for &b in pool {
+                        fc.push(FileCase { cfg: cfg.clone(), lens: vec![a, b] });
+                    }
+                }
+                fc.push(FileCase { cfg: cfg.clone(), lens: vec![5000, 4999, 5001, 0, 3] });
+            }
+        }
+    }
+    ctx.run_space(
+        "file_sink_sequences",
+        true,
+        "MessageBuilder::to_file / to_armored_file onto ONE path, all ordered pairs of payload lengths from {0,1,600,5000} (thorough {0,1,100,600,4999,5000,9000}) and one 5-step sequence, x {plain, SEIPDv1, SEIPDv2} x armor on/off x signers 0/1: after every write the file holds exactly what to_writer produces for the same builder and rng stream, and reads back to the payload",
+        fc.into_par_iter(),
+        run_file,
+    );
     ctx.assume("payload content is a fixed pseudo-random pattern (binary) or CRLF text over a 5-word alphabet (utf8 mode); only the length is quantified");
     ctx.assume("the full configuration product (~10^9) is not enumerated: spine product complete, other dimensions one at a time");
 }
 
 pub fn replay(space: &str, case: &Value) -> Option<Outcome> {
+    if space == "file_sink_sequences" {
+        return replay_as(case, run_file);
+    }
     match space {
-        "spine_x_every_length" | "boundary_windows" | "dimension_sweeps" => replay_as(case, run),
+        "spine_x_every_length" | "boundary_windows" | "dimension_sweeps" | "seipdv1_streaming_reader" => replay_as(case, run),
         _ => None,
     }
 }
